@@ -107,6 +107,9 @@ pub fn run(tier: &str) -> i32 {
     for a in 0..pool.len() {
         for b in (a + 1)..pool.len() {
             for d in (b + 1)..pool.len() {
+                if vlib::report::lite() && (a + 2 * b + 3 * d) % 4 != 0 {
+                    continue;
+                }
                 for li in 0..ls.len() {
                     // the second ten-player list costs eight times the first: a sixth of the flops in quick
                     if ls[li].0 == "L6" && !thorough && (a + b + d) % 6 != 0 {
